@@ -1696,13 +1696,18 @@ def compile_function_node(compiler, expr, node, decorators, tp, name, args, retu
         enode = asty.Expr if scope.is_async and scope.has_yield else asty.Return
         body += enode(body.expr, value=body.expr)
 
+    if returns is not None:
+        # Keep any statements the return annotation compiles to.
+        ret += compiler.compile(returns)
+        returns = ret.force_expr
+
     ret += node(
         expr,
         name=name,
         args=args,
         body=body.stmts or [asty.Pass(expr)],
         decorator_list=decorators,
-        returns=compiler.compile(returns).force_expr if returns is not None else None,
+        returns=returns,
         **digest_type_params(compiler, tp),
     )
 
